@@ -105,6 +105,9 @@ type source struct {
 	// directed interleaving "source reorganised while a store callback is running": armed
 	// by the controller, taken by the next OpStore listener callback (c06_test.go)
 	cbHook atomic.Pointer[cbHook]
+	// logical time at which a block last left the canonical path / was last stored by the node
+	orphanedAt map[felt.Felt]uint64
+	storedAt   map[felt.Felt]uint64
 	// same, taken by the next OpFetch listener callback (a fetcher has just received a block)
 	fetchHook atomic.Pointer[cbHook]
 
@@ -149,8 +152,20 @@ func newSource(rng *rand.Rand, p probs, blocks []*chain.Blk, head *atomic.Pointe
 }
 
 func (s *source) setCanonLocked(blocks []*chain.Blk) {
+	old := s.canonIx
 	s.canon = blocks
 	s.canonIx = make(map[felt.Felt]struct{}, len(blocks))
+	defer func() {
+		// blocks that leave the canonical path now (they may come back: there-and-back)
+		if s.orphanedAt == nil {
+			s.orphanedAt = map[felt.Felt]uint64{}
+		}
+		for h := range old {
+			if _, still := s.canonIx[h]; !still {
+				s.orphanedAt[h] = s.clock
+			}
+		}
+	}()
 	for _, b := range blocks {
 		s.canonIx[*b.Block.Hash] = struct{}{}
 		s.ever[*b.Block.Hash] = b
@@ -511,11 +526,27 @@ type headFacts struct {
 
 // onHead is called from the database commit hook (store=true: hash is the block just
 // stored; store=false: hash is the block just removed; cur = head after the commit).
-func (s *source) onHead(hash *felt.Felt, cur *headInfo) headFacts {
+// onHead: stored = the head movement is the store of block `hash`, otherwise its removal.
+// canonical (judged for removals): the block is on the source's canonical path now AND has
+// been on it ever since the node stored it. A block that was orphaned in between - the source
+// switched to a fork and came back - may be reverted by a node that is still acting on what it
+// was told while the fork was canonical.
+func (s *source) onHead(hash *felt.Felt, cur *headInfo, stored bool) headFacts {
 	s.mu.Lock()
 	defer s.mu.Unlock()
 	_, can := s.canonIx[*hash]
 	_, srv := s.served[*hash]
+	if s.storedAt == nil {
+		s.storedAt = map[felt.Felt]uint64{}
+	}
+	if stored {
+		s.storedAt[*hash] = s.clock
+	} else if at, ok := s.orphanedAt[*hash]; ok && at >= s.storedAt[*hash] {
+		if can {
+			s.stats["reverts_of_blocks_orphaned_and_canonical_again(not judged)"]++
+		}
+		can = false
+	}
 	s.checkConvergedLocked(cur)
 	s.progress.Add(1)
 	s.lastProgress.Store(time.Now().UnixNano())
